@@ -135,7 +135,13 @@ def run_describe(case, ctx):
     root = env.scratch_dir("c20d")
     try:
         md = Metadata() if case["defaults"] else Metadata(**case["metadata"])
-        ds = dsops.create_dataset(root / "ds", desc, metadata=md)
+        ok, ds = oracles.guarded(
+            ctx, "description-roundtrip", ("create-raised",),
+            f"Dataset.create for a {case['fmt']} description in a fresh "
+            f"directory", lambda: dsops.create_dataset(root / "ds", desc,
+                                                       metadata=md))
+        if not ok:
+            return
 
         def compare(stage_name):
             fresh = Dataset(root / "ds")
@@ -310,14 +316,31 @@ def strategy_relocate(draw, tier):
     case["open"] = draw(st.sampled_from(["abs", "rel", "rel-up", "rel-deep"]))
     case["more"] = draw(history.st_filler_op(case["desc"]["eps"], busy=True))
     case["chdir_after_open"] = draw(st.booleans())
+    # the copy may live on another file system than the original (and than
+    # the system's temporary directory)
+    case["cross_fs"] = draw(st.booleans())
     return case
 
 
 def run_relocate(case, ctx):
     from sedpack.io import Dataset
     root = env.scratch_dir("c20r")
+    other = None
     try:
-        h = history.History(root / "orig" / "ds", case["desc"])
+        orig_base = root / "orig"
+        if case.get("cross_fs"):
+            import tempfile
+            tmp = os.environ.get("VERIF_TMP_WORK") or tempfile.gettempdir()
+            if os.stat(tmp).st_dev != os.stat(root).st_dev:
+                other = Path(tempfile.mkdtemp(prefix="verif-c20-", dir=tmp))
+                orig_base = other
+                ctx.label("cross-filesystem")
+        ok, h = oracles.guarded(
+            ctx, "relocated-writes", ("create-raised",),
+            "Dataset.create in a fresh directory",
+            lambda: history.History(orig_base / "ds", case["desc"]))
+        if not ok:
+            return
         for op in case["ops"]:
             try:
                 h.apply(op)
@@ -415,6 +438,8 @@ def run_relocate(case, ctx):
     finally:
         os.chdir("/")
         dsops.rmtree(root)
+        if other is not None:
+            dsops.rmtree(other)
 
 
 # -------------------------------------------------------------------- version
